@@ -293,7 +293,7 @@ _register_dynamic_typespecs()
 
 SPEC_KEYS = ["var", "emptytype", "fulltype", "generic-modproc", "generic-bodies", "operator", "assignment", "abstract", "explicit",
              "enum", "common", "namelist", "enum-expr", "namelist2"]
-PROC_KEYS = ["sub", "fn", "fn-result", "sub-internal", "fn-typed"]
+PROC_KEYS = ["sub", "fn", "fn-result", "sub-internal", "fn-typed", "fn-result-attrs", "fn-name-attrs"]
 
 
 def proc_alphabet(i):
@@ -303,6 +303,8 @@ def proc_alphabet(i):
                             decls=[Var(f"loc{s}", "integer")], body=[f"loc{s} = n"]),
         "fn": lambda: Proc("function", f"pf{s}", args=[Var("x", "real", ["intent_in"])], body=[f"pf{s} = x"]),
         "fn-result": lambda: Proc("function", f"pr{s}", args=[Var("x", "real")], result=f"res{s}", prefixes=["pure"], body=[f"res{s} = x"]),
+        "fn-result-attrs": lambda: Proc("function", f"pq{s}", args=[Var("x", "real")], result=f"rq{s}", result_attrs=["dimension", "target"], body=[f"rq{s} = x"]),
+        "fn-name-attrs": lambda: Proc("function", f"pn{s}", args=[Var("x", "real")], result_attrs=["dimension"], body=[f"pn{s} = x"]),
         "sub-internal": lambda: Proc("subroutine", f"pi{s}", args=[], decls=[Var(f"w{s}", "real")],
                                      internal=[Proc("subroutine", f"in{s}a", args=[Var("q", "integer")]),
                                                Proc("function", f"in{s}b", args=[], rettype="integer", body=[f"in{s}b = 1"])],
